@@ -98,7 +98,8 @@ func c06case(c *wk.Ctx, idx int, r *rand.Rand, pl c06plan, t *rngTee) {
 	var srv *refserver.Server
 	srv = w.server(refserver.HandlerFunc(func(cn *refserver.Conn, in *mtp.Inner) {
 		if uid, kind, res, ok := answerFor(in.Body); ok {
-			salt, _ := srv.Salt(cn.Key)
+			key, _ := cn.KeySession()
+			salt, _ := srv.Salt(key)
 			w.emit("srv.answer", map[string]interface{}{"uid": fmt.Sprint(uid), "kind": kind, "req_msg_id": fmt.Sprint(in.MsgID), "salt_ok": in.Salt == salt})
 			cn.SendEncrypted(refserver.Out{MsgID: srv.NextMsgID(1), SeqNo: cn.NextSeq(true), Body: refserver.RPCResult(in.MsgID, res)}, salt, "rpc_result", map[string]interface{}{"uid": fmt.Sprint(uid)})
 		}
